@@ -159,7 +159,9 @@ def run(v, tier, seed, replay, prop, lean_modules, tree_oracles, wild_oracles=("
                 return False
             return any(a == nm for a, _ in ff)
         small = lines
-        if kind != "replay" and len(lines) <= 400:
+        # (directed programs — corpus witnesses, focus scenarios — are reported as they are: shrinking them only drifts to a
+        # different failure of the same oracle)
+        if kind in ("tree", "wild") and len(lines) <= 400:
             try:
                 # a call that does not return costs the whole deadline per candidate: shrink those only a little
                 slow = "did not return" in msg or "died" in msg
